@@ -182,6 +182,38 @@ fn p_sdi_skip(b: &[u8], _: u64) -> R {
     let x = i.read_u8().map_err(es)?;
     Ok(vec![n as i128, x as i128, i.pos() as i128])
 }
+/// what a caller does after a skip was refused (the length came from hostile input): it keeps using the reader - to show what
+/// is left, to resynchronise, to try the next field.  Every one of these calls answers or refuses; none may crash.
+macro_rules! after_refused_skip { ($i:ident) => {{
+    let n = $i.read_var_int().map_err(es)?;
+    let refused = $i.skip(n as usize).is_err();
+    let rest = $i.remaining_slice().len();
+    let a = $i.read_u16().is_ok(); let c = $i.read_u32().is_ok(); let d = $i.read_u64().is_ok();
+    let mut buf = [0u8; 3]; let e = $i.read_bytes(&mut buf).is_ok();
+    let refused2 = $i.skip(usize::MAX).is_err();
+    let rest2 = $i.remaining_slice().len();
+    let f = $i.read_u16().is_ok(); let g = $i.read_u32().is_ok(); let h = $i.read_u64().is_ok();
+    let mut buf2 = [0u8; 9]; let k = $i.read_bytes(&mut buf2).is_ok();
+    let v = $i.read_var_int().is_ok(); let l = $i.read_length_prefixed_bytes().is_ok();
+    let refused3 = $i.skip(usize::MAX - 1).is_err();
+    let rest3 = $i.remaining_slice().len() + $i.remaining();
+    Ok(vec![n as i128, refused as i128, rest as i128, a as i128, c as i128, d as i128, e as i128, refused2 as i128, rest2 as i128, f as i128, g as i128, h as i128, k as i128, v as i128, l as i128, refused3 as i128, rest3 as i128])
+}} }
+fn p_sdi_after_skip(b: &[u8], _: u64) -> R {
+    let mut i = SliceDataInput::new(b);
+    after_refused_skip!(i)
+}
+fn p_mmap_after_skip(b: &[u8], _: u64) -> R {
+    let p = tmp_path("mmapskip");
+    std::fs::write(&p, b).map_err(es)?;
+    let r = (|| -> R { let mut i = zipora::io::MmapDataInput::open(&p).map_err(es)?; after_refused_skip!(i) })();
+    let _ = std::fs::remove_file(&p);
+    r
+}
+fn seeds_after_skip(_r: &mut Rng) -> Vec<Seed> {
+    vec![s0(vec![0xFF, 0xFF, 0xFF, 0xFF, 0xFF, 0xFF, 0xFF, 0xFF, 0xFF, 0x01, 1, 2, 3, 4, 5, 6, 7, 8, 9, 10, 11, 12]), s0(vec![100, 1, 2, 3, 4, 5, 6, 7, 8]), s0(vec![2, 1, 2, 3]),
+         s0(vec![9, 1, 2, 3, 4, 5, 6, 7, 8]), s0(vec![0xFF, 0xFF, 0xFF, 0xFF, 0xFF, 0xFF, 0xFF, 0xFF, 0x7F, 1, 2]), s0(vec![0])]
+}
 fn p_sdi_fixed(b: &[u8], _: u64) -> R {
     let mut i = SliceDataInput::new(b);
     let a = i.read_u8().map_err(es)?;
@@ -973,6 +1005,8 @@ pub fn parsers() -> Vec<Parser> {
         P!("SliceDataInput/read_length_prefixed_string", 0, false, true, p_sdi_lp_string, seeds_lp),
         P!("SliceDataInput/var_int+skip+read_u8", 51, false, true, p_sdi_skip, seeds_sdi_skip),
         P!("SliceDataInput/fixed_width_reads", 0, false, true, p_sdi_fixed, seeds_sdi_fixed),
+        P!("SliceDataInput/after_refused_skip", 0, false, true, p_sdi_after_skip, seeds_after_skip),
+        P!("MmapDataInput/after_refused_skip", 0, false, false, p_mmap_after_skip, seeds_after_skip),
         P!("SerializableType/Vec<u32>", 52, false, true, p_ser_vec_u32, seeds_ser_vec_u32),
         P!("SerializableType/Vec<Vec<String>>", 0, false, true, p_ser_vecvec, seeds_ser_vecvec),
         P!("ComplexTypeSerializer/tuple/metadata", 0, false, false, p_cx_tuple::<true>, seeds_cx_tuple::<true>),
